@@ -419,6 +419,11 @@ func c14Pairing(e *c14env) {
 		switch p := pm[id].(type) {
 		case *ast.ReturnStmt, *ast.ValueSpec:
 			return true
+		case *ast.RangeStmt:
+			if ast.Unparen(p.X) == ast.Expr(id) {
+				return true // iterated, not changed
+			}
+			badUse, why = p, "is the key/value target of a range statement"
 		case *ast.CallExpr:
 			if c14isBuiltin(f, p, "len", "cap") {
 				return true
@@ -489,6 +494,23 @@ func c14Pairing(e *c14env) {
 			}
 		}
 	}
+	// third form: the filters are collected first, then the QoS slice is built by looking every
+	// collected filter up again, in the order of the filter slice: qos[i] = Topics[sub[i]]
+	if !ok && len(fs) == 1 && len(fq) == 1 && fs[0].loop != nil && fq[0].loop != nil && fs[0].idx == "" && fq[0].idx == "" && fs[0].loop.End() <= fq[0].loop.Pos() {
+		if rs, isRange := fq[0].loop.(*ast.RangeStmt); isRange && c14obj(f, rs.X) == subV && rs.Value != nil {
+			eq := ast.Unparen(fq[0].elem)
+			if call, isConv := eq.(*ast.CallExpr); isConv && len(call.Args) == 1 {
+				if tv, ok2 := f.Info.Types[call.Fun]; ok2 && tv.IsType() {
+					eq = ast.Unparen(call.Args[0])
+				}
+			}
+			if ix, isIx := eq.(*ast.IndexExpr); isIx {
+				if _, overTopics := c14fieldRecv(f, ix.X, topicsF); overTopics && c14obj(f, ix.Index) != nil && c14obj(f, ix.Index) == c14obj(f, rs.Value) {
+					ok = true
+				}
+			}
+		}
+	}
 	c.Check(ok, "R-C14-5", cons+"|filters and QoS stay paired", pos(c, f.Body),
-		"both slices are filled once, in the same loop body, from the same entry of SessionInfo.Topics, and are not touched on their own afterwards", detail+": a resumed persistent session is re-subscribed with a QoS that belongs to another filter")
+		"both slices are filled once, in the same loop body, from the same entry of SessionInfo.Topics (or the QoS slice is built by looking up the filters in the order of the filter slice), and are not touched on their own afterwards", detail+": a resumed persistent session is re-subscribed with a QoS that belongs to another filter")
 }
